@@ -66,7 +66,7 @@ async def call_op(api, kind, a):
     if kind == 11: return await api.get_state()
     if kind == 12:
         irset, st, md, tg, fn, sw, upd = a
-        remote = SwitcherBreezeRemote(irset)
+        remote = REMOTES.get(id(irset)) or SwitcherBreezeRemote(irset)       # REMOTES: remote objects shared between calls by a stream
         kw = {}
         if st is not None: kw["state"] = DeviceState.ON if st else DeviceState.OFF
         if md is not None: kw["mode"] = ThermostatMode[md]
@@ -76,6 +76,9 @@ async def call_op(api, kind, a):
         if upd: kw["update_state"] = True
         return await api.control_breeze_device(remote, **kw)
     raise AssertionError(kind)
+
+
+REMOTES = {}
 
 
 def model_op_args(kind, a, now):
